@@ -205,7 +205,13 @@ class Faults:
         if not self.syscall_on or self.budget <= 0:
             return None
         vt = k.me()
-        # only while a request is being acquired (never on release paths)
+        if site == 'close':
+            # the only release-path fault: close() reporting EIO (the fd is closed anyway)
+            if not self.tape.chance(1, 30, 'fault.close'):
+                return None
+            self.budget -= 1
+            return OSError(errno.EIO, os.strerror(errno.EIO))
+        # otherwise only while a request is being acquired
         if self.oracle[0].phase.get(vt) != 'acq':
             return None
         if not self.tape.chance(1, 8, 'fault.syscall'):
@@ -619,7 +625,15 @@ def run_one(cfg, tape: Tape, want_trace=False):
             except OSError as e:
                 if vt.killed:
                     raise SimAbort()
-                if entered:
+                if entered and e.errno == errno.EIO and any(
+                        pe[0] == 'close' and pe[1] == vt.pid for pe in simos.produced_errors):
+                    # the request was granted and served; close() of the lock fd reported EIO
+                    # on the way out (injected).  The end-state checks still apply.
+                    simos.produced_errors[:] = [pe for pe in simos.produced_errors
+                                                if not (pe[0] == 'close' and pe[1] == vt.pid)][:]
+                    stats['probe.close_error_on_release'] = stats.get('probe.close_error_on_release', 0) + 1
+                    oracle.on_done(vt, fr, 'granted')
+                elif entered:
                     oracle.on_done(vt, fr, 'error', e)
                 else:
                     oracle.on_done(vt, fr, 'oserror', e)
